@@ -20,7 +20,7 @@ THEOREMS = ['GV.TI.' + t for t in (
     'eq_imp_hash', 'mk_rejects',
     'intersection_comm', 'intersection_self', 'intersection_issubset', 'union_comm', 'union_assoc', 'union_self',
     'issubset_refl', 'issubset_trans', 'elapsed_nonneg', 'elapsed_mono', 'elapsed_union_ge', 'isdisjoint_of_subset',
-    'copy_eq')]
+    'copy_eq_self')]
 
 # second tie: time.py translated to Lean on every run, proved equal to the model (see common.Run.source_tie)
 SRC_MODULE = 'GeoVerif.Props.C06Src'
